@@ -9,6 +9,7 @@ from .types import (TInt, TBool, TNone, TBytes, TStr, TFloat, TAny, TClassT, TFu
                     TUnion, TList, TSet, TDict, TTuple, NAMED)
 from .core import PyExc, ExcVal, PathEnd
 from .program import const_eval, BindError
+from . import lists as L
 
 
 class ExprMixin:
@@ -25,6 +26,19 @@ class ExprMixin:
             return
         if not self.branch(cond):
             self.py_raise(exc_cls, *args)
+
+    def key_of(self, v, kt):
+        '''A value used as key of a typed dict.  An Optional key must be provably
+        not None here (None keys are outside the dict model).'''
+        if isinstance(v.t, TOpt) and not isinstance(kt, TOpt):
+            if not self.spec_mode:
+                r, _ = self._check(v.t.is_none(v.z), timeout=self.branch_timeout_ms)
+                if r != z3.unsat:
+                    rl = self._check_light(v.t.is_none(v.z))
+                    if rl != z3.unsat:
+                        raise Unsupported('possibly None used as dict key')
+            v = V(v.t.inner, v.t.val(v.z))
+        return coerce(v, kt)
 
     def unopt(self, v, exc='TypeError'):
         """Use of an Optional value where a concrete one is required."""
@@ -116,13 +130,13 @@ class ExprMixin:
         if not items:
             if elem_t is not None:
                 lt = TList(elem_t)
-                return V(lt, z3.Empty(lt.sort()))
+                return V(lt, L.l_empty(lt))
             lt = TList(TInt)
-            return V(lt, z3.Empty(lt.sort()), py=('emptylist',))
+            return V(lt, L.l_empty(lt), py=('emptylist',))
         et = elem_t or items[0].t
         lt = TList(et)
-        units = [z3.Unit(coerce(i, et).z) for i in items]
-        return V(lt, units[0] if len(units) == 1 else z3.Concat(*units))
+        zs = [coerce(i, et).z for i in items]
+        return V(lt, L.l_from_items(lt, zs), py=('listlit', tuple(zs)))
 
     def ev_Dict(self, node):
         if not node.keys:
@@ -260,7 +274,10 @@ class ExprMixin:
             if kind == 'module':
                 return self.module_attr(self.prog.module(base.py[1]), attr)
             if kind in ('extmodule', 'ext'):
-                return Py('ext', base.py[1] + '.' + attr)
+                dotted = base.py[1] + '.' + attr
+                if dotted in EXT_CONSTS:
+                    return mk_int(EXT_CONSTS[dotted])
+                return Py('ext', dotted)
             if kind == 'class':
                 r = self.class_attr(base.py[2], attr)
                 if r is None:
@@ -426,11 +443,13 @@ class ExprMixin:
             return self.mk_tuple(items[lo:hi])
         if not (t is TBytes or isinstance(t, TList)):
             raise Unsupported('slice of %s' % t)
-        n = z3.Length(base.z)
+        n = py_len(base)
         lo = self.ev(sl.lower).z if sl.lower is not None else z3.IntVal(0)
         hi = self.ev(sl.upper).z if sl.upper is not None else n
         self.nonneg_or_unsupported(lo, 'slice bound')
         self.nonneg_or_unsupported(hi, 'slice bound')
+        if isinstance(t, TList):
+            return V(t, L.l_slice(t, base.z, lo, hi))
         return V(t, z3.simplify(seq_slice(base.z, lo, hi)))
 
     def get_item(self, base, idx):
@@ -439,7 +458,7 @@ class ExprMixin:
             self.need(z3.Not(t.is_none(base.z)), 'TypeError')
             return self.get_item(V(t.inner, t.val(base.z)), idx)
         if isinstance(t, TDict):
-            k = coerce(idx, t.k)
+            k = self.key_of(idx, t.k)
             self.need(z3.Select(t.dom(base.z), k.z), 'KeyError')
             v = V(t.v, z3.Select(t.map(base.z), k.z))
             if not self.spec_mode:
@@ -448,15 +467,16 @@ class ExprMixin:
         if isinstance(t, TList) or t is TBytes:
             if idx.t is not TInt:
                 raise Unsupported('index type %s' % idx.t)
-            n = z3.Length(base.z)
+            n = py_len(base)
+            nth = (lambda k: L.l_get(t, base.z, k)) if isinstance(t, TList) else (lambda k: base.z[k])
             ci = concrete_int(idx.z)
             if ci is not None and ci < 0:
                 self.need(n >= -ci, 'IndexError')
-                z = base.z[n + ci]
+                z = nth(n + ci)
             else:
                 self.nonneg_or_unsupported(idx.z, 'index')
                 self.need(idx.z < n, 'IndexError')
-                z = base.z[idx.z]
+                z = nth(idx.z)
             et = TInt if t is TBytes else t.elem
             v = V(et, z)
             if not self.spec_mode:
@@ -613,7 +633,13 @@ class ExprMixin:
                 if b.py == ('emptylist',):
                     return a
                 if ta == tb:
-                    return V(ta, z3.Concat(a.z, b.z))
+                    if b.py and b.py[0] == 'listlit':
+                        # xs + [a, b]: the same term an append would build
+                        z = a.z
+                        for x in b.py[1]:
+                            z = L.l_append(ta, z, x)
+                        return V(ta, z)
+                    return V(ta, L.l_concat(ta, a.z, b.z))
             if ta is TStr and tb is TStr:
                 return self.opaque_str()
             if isinstance(ta, TTuple) and isinstance(tb, TTuple):
@@ -720,10 +746,10 @@ class ExprMixin:
             if cont.py == ('emptylist',):
                 return z3.BoolVal(False)
             if isinstance(item.t, TOpt) and item.t.inner == t.elem:
-                return z3.And(z3.Not(item.t.is_none(item.z)), z3.Contains(cont.z, z3.Unit(item.t.val(item.z))))
+                return z3.And(z3.Not(item.t.is_none(item.z)), L.l_contains(t, cont.z, item.t.val(item.z)))
             if item.t is TNone:
                 return z3.BoolVal(False)
-            return z3.Contains(cont.z, z3.Unit(coerce(item, t.elem).z))
+            return L.l_contains(t, cont.z, coerce(item, t.elem).z)
         if isinstance(t, TTuple) or is_py(cont, 'pytuple'):
             return z3.Or(*[eq(x, item) for x in self.tuple_items(cont)])
         if is_py(cont, 'kwdict'):
@@ -765,6 +791,8 @@ class ExprMixin:
         return self.call(node)
 
 
+EXT_CONSTS = {'os.SEEK_SET': 0, 'os.SEEK_CUR': 1, 'os.SEEK_END': 2, 'socket.SHUT_RD': 0, 'socket.SHUT_WR': 1,
+              'socket.SHUT_RDWR': 2}
 BUILTIN_NAMES = {'len', 'min', 'max', 'int', 'str', 'bool', 'bytes', 'bytearray', 'tuple', 'list', 'set', 'dict',
                  'sorted', 'enumerate', 'range', 'isinstance', 'repr', 'super', 'type', 'open', 'getattr',
                  'hasattr', 'abs', 'sum', 'any', 'all', 'zip', 'id', 'print', 'iter', 'next', 'reversed', 'map'}
